@@ -31,6 +31,9 @@ type Prog struct {
 	All    []*ssa.Function          // every repo function with a body, sorted by name
 	Env    []string
 	Config string // "" for the default build configuration, else the extra env (e.g. "GOARCH=386")
+	// Normalized lists new unexported helpers that were inlined back into their callers before analysis.
+	Normalized []string
+	Overlay    map[string][]byte
 }
 
 // Short strips the module prefix from every occurrence in s.
@@ -40,13 +43,24 @@ func Short(s string) string { return strings.ReplaceAll(s, ModPrefix, "") }
 func Load(repo string, extraEnv ...string) (*Prog, error) {
 	env := append(os.Environ(), "GOFLAGS=-mod=mod", "GOPROXY=off", "GOWORK=off")
 	env = append(env, extraEnv...)
+	var overlay map[string][]byte
+	var normalized []string
+	if os.Getenv("VSA_NO_NORMALIZE") == "" {
+		ov, done, err := Normalize(repo, env)
+		if err != nil {
+			fmt.Fprintf(os.Stderr, "helper normalisation skipped: %v\n", err)
+		} else {
+			overlay, normalized = ov, done
+		}
+	}
 	fset := token.NewFileSet()
 	cfg := &packages.Config{
-		Mode:  packages.LoadAllSyntax,
-		Dir:   repo,
-		Fset:  fset,
-		Env:   env,
-		Tests: false,
+		Mode:    packages.LoadAllSyntax,
+		Dir:     repo,
+		Fset:    fset,
+		Env:     env,
+		Tests:   false,
+		Overlay: overlay,
 	}
 	pkgs, err := packages.Load(cfg, "./...")
 	if err != nil {
@@ -70,7 +84,7 @@ func Load(repo string, extraEnv ...string) (*Prog, error) {
 	prog, spkgs := ssautil.AllPackages(pkgs, ssa.InstantiateGenerics)
 	prog.Build()
 	p := &Prog{Repo: repo, Fset: fset, Pkgs: pkgs, ByPath: map[string]*packages.Package{}, SSA: prog,
-		Funcs: map[string]*ssa.Function{}, Env: env, Config: strings.Join(extraEnv, " ")}
+		Funcs: map[string]*ssa.Function{}, Env: env, Config: strings.Join(extraEnv, " "), Normalized: normalized, Overlay: overlay}
 	repoPkgs := map[*ssa.Package]bool{}
 	for i, pk := range pkgs {
 		if !strings.HasPrefix(pk.PkgPath, strings.TrimSuffix(ModPrefix, "/")) {
@@ -82,25 +96,25 @@ func Load(repo string, extraEnv ...string) (*Prog, error) {
 		}
 	}
 	for fn := range ssautil.AllFunctions(prog) {
+		if len(fn.TypeArgs()) > 0 {
+			// analyse the generic body once: the origin (template) function
+			fn = fn.Origin()
+			if fn == nil {
+				continue
+			}
+		}
 		if fn.Synthetic != "" && fn.Synthetic != "package initializer" {
 			continue // wrappers, thunks
 		}
 		pk := fn.Pkg
 		if pk == nil && fn.Parent() != nil {
-			pk = fn.Parent().Pkg
+			pk = Outer(fn).Pkg
 		}
 		if pk == nil || !repoPkgs[pk] {
 			continue
 		}
 		if fn.Blocks == nil {
 			continue
-		}
-		if len(fn.TypeArgs()) > 0 {
-			// analyse the generic body once: the origin (template) function
-			fn = fn.Origin()
-			if fn == nil || fn.Blocks == nil {
-				continue
-			}
 		}
 		name := FnName(fn)
 		if _, dup := p.Funcs[name]; dup {
